@@ -18,6 +18,13 @@ RULE = ("cases = (format, path|handle, text) well-formed (any literal spelling o
         "model and the reference reader | JSON / npy / text transforms (valid, invalid, near the is_sim3 tolerances); "
         "accept/reject compared exactly, every accepted number bit-for-bit in its slot; non-trivial = more than one data row "
         "or a defect; distinct by content hash")
+MODELLED = ["evo/tools/file_interface.py:has_utf8_bom", "evo/tools/file_interface.py:csv_read_matrix",
+            "evo/tools/file_interface.py:read_tum_trajectory_file", "evo/tools/file_interface.py:write_tum_trajectory_file",
+            "evo/tools/file_interface.py:read_kitti_poses_file", "evo/tools/file_interface.py:write_kitti_poses_file",
+            "evo/tools/file_interface.py:read_euroc_csv_trajectory", "evo/tools/file_interface.py:load_transform_json",
+            "evo/tools/file_interface.py:load_transform", "evo/core/lie_algebra.py:is_sim3", "evo/core/lie_algebra.py:is_so3",
+            "evo/core/lie_algebra.py:sim3_scale", "evo/core/lie_algebra.py:sim3", "evo/core/transformations.py:quaternion_matrix",
+            "evo/core/trajectory.py:xyz_quat_wxyz_to_se3_poses"]
 TMP = None
 warnings.filterwarnings("ignore", category=RuntimeWarning)
 
@@ -710,6 +717,7 @@ OPEN = ["spellings outside the decimal grammar that float() accepts (nan, inf, 1
 
 def check(ctx):
     lean = core.lean_side(ctx.prop, ctx.tier)
+    core.drift(ctx, MODELLED)
     cases = list(gen_cases(ctx))
     evaluate(ctx, cases)
     core.shrink_all(ctx, shrink, evaluate)
